@@ -12,9 +12,14 @@ Next == \E o \in Ops : Step(o)
 Spec == Init /\ [][Next]_vars
 View == st
 Inv == SWellFormed(st) /\ C01View(V(st))
+\* refinement into the integer abstraction SegmentedLen (bounds proved by Apalache for every pair of capacities)
+SL == INSTANCE SegmentedLen WITH CA <- A, CB <- B, a <- Len(st.prob), b <- Len(st.prot)
 StepOK == LET o == hist'[Len(hist')]
               x == SApply(o, st)
-          IN GenericStepOK(V(st), o @@ [ret |-> x.ret], V(x.st), SReadOnly, FALSE)
+              n == x.st
+          IN /\ GenericStepOK(V(st), o @@ [ret |-> x.ret], V(x.st), SReadOnly, FALSE)
+             /\ Assert(SL!NextRel(Len(st.prob), Len(st.prot), Len(n.prob), Len(n.prot)),
+                       <<"step is not a step of SegmentedLen", st, o, n>>)
 EmitState == IF Emit THEN PrintT(<<"STATE", ToJson([path |-> hist])>>) ELSE TRUE
 EmitOps == IF Emit THEN PrintT(<<"OPS", ToJson([ops |-> Ops])>>) ELSE TRUE
 ASSUME EmitOps
